@@ -36,7 +36,7 @@ PROPS = {
         verus=['lexing', 'url', 'number', 'mask', 'document'],
         kani_quick=['lexing.whitespace_5'],
         kani_thorough=['lexing.whitespace_5', 'lexing.whitespace_8', 'lexing.hex_4', 'lexing.hostname_4', 'lexing.url_4', 'lexing.email_4'],
-        rac=['document_tiles', 'markdown_tokens'],
+        rac=['document_tiles', 'condense_indices', 'markdown_tokens'],
         unverified=[
             'Document::parse condensing passes (condense_spaces/newlines/contractions/dotted_initialisms/number_suffixes/ellipsis/latin, match_quotes): not under contract in this round',
             'every front-end other than plain English (Markdown byte/char bookkeeping, Mask::parse, CollapseIdentifiers, IsolateEnglish, comment parsers, HTML, Typst, LHS, git commit)',
